@@ -28,8 +28,9 @@ META = {
         'the interpreter documents Undefined line number for a missing n, which the statement ("first DATA at or after line '
         'n") does not exclude. Not pinned, hence not generated: a DATA statement with nothing after the keyword, quotes inside '
         'unquoted items, text after a closing quote, DATA after THEN/ELSE, numeric items that are not exact in binary or too '
-        'long for a short PRINT form, halves read into integer variables, values beyond the integer range read into integer '
-        'variables, the contents of variables after a failed READ.'),
+        'long for a short PRINT form, halves read into integer variables, the contents of the target variable after a failed READ '
+        '(failed READs go to variables that are never printed). A READ that fails (non-numeric item, value beyond the integer '
+        'range: Overflow on the READ line) does not consume the item: under ON ERROR with RESUME NEXT / RESUME line later READs get it again.'),
     'rule': ('case = one generated program (its text); distinct by text; non-trivial = the reference executed at least one '
              'successful READ and the program was not discarded as unpinned'),
     'design_ref': 'DESIGN.md section 4 C22',
@@ -38,7 +39,8 @@ META = {
         'ref_read', 'ref_restore', 'ref_restore:line', 'ref_read:out-of-data', 'ref_read:non-numeric', 'ended_err4', 'ended_err2',
         'ended_end', 'gen_empty_item', 'gen_data_inside_multi_statement_line', 'gen_read_in_loop',
         'gen_restore_to_line_without_data', 'gen_two_data_statements_on_a_line', 'gen_trapped', 'directed_cases',
-        'gen_data_item_with_unclosed_quote', 'gen_line_ending_in_unclosed_string']},
+        'gen_data_item_with_unclosed_quote', 'gen_line_ending_in_unclosed_string',
+        'gen_failed_read_then_resumed', 'gen_integer_overflow_planned', 'ref_read:overflow', 'ref_resume:next']},
     'timeout': {'quick': 600, 'thorough': 7200},
 }
 
@@ -102,6 +104,24 @@ DIRECTED = [
      ['10 PRINT "p', '20 DATA "q', '30 DATA 7', '40 READ A$,B:RESTORE 30:READ C:PRINT A$;B;C'], b'p\r\nq 7  7 \r\n'),
     ('unclosed-string:order-over-several-lines',
      ['10 DATA 1', '20 PRINT "a:DATA 9', '30 B$="DATA 8', '40 DATA 2', '50 READ A,B:PRINT A;B'], b'a:DATA 9\r\n 1  2 \r\n'),
+    ('failed-read:item-not-consumed:non-numeric-then-resume-next',
+     ['10 ON ERROR GOTO 100', '20 READ A', '30 READ B$:PRINT "[";B$;"]"', '40 READ C:PRINT C', '50 END', '60 DATA 12abc,7',
+      '100 PRINT ERR;ERL:RESUME NEXT'], b' 2  60 \r\n[12abc]\r\n 7 \r\n'),
+    ('failed-read:item-not-consumed:integer-overflow-then-resume-next',
+     ['10 ON ERROR GOTO 100', '20 READ A%', '30 READ B:PRINT B', '40 READ C:PRINT C', '50 END', '60 DATA 40000,5',
+      '100 PRINT ERR;ERL:RESUME NEXT'], b' 6  20 \r\n 40000 \r\n 5 \r\n'),
+    ('failed-read:item-not-consumed:fails-part-way-through-a-list',
+     ['10 ON ERROR GOTO 100', '20 READ A,B,C', '30 READ D$,E:PRINT A;"[";D$;"]";E', '50 END', '60 DATA 1,x,3',
+      '100 PRINT ERR;ERL:RESUME NEXT'], b' 2  60 \r\n 1 [x] 3 \r\n'),
+    ('failed-read:item-not-consumed:resume-line',
+     ['10 ON ERROR GOTO 100', '20 READ A', '30 PRINT "no"', '40 READ B$,C:PRINT "[";B$;"]";C', '50 END', '60 PRINT "d":DATA "q",8',
+      '100 PRINT ERR;ERL:RESUME 40'], b' 2  60 \r\n[q] 8 \r\n'),
+    ('failed-read:item-not-consumed:resume-retries-the-read',
+     ['10 ON ERROR GOTO 100', '20 READ A', '30 READ B$:PRINT "[";B$;"]"', '50 END', '60 DATA abc',
+      '100 N%=N%+1:PRINT ERR;ERL;N%:IF N%<2 THEN RESUME ELSE RESUME NEXT'], b' 2  60  1 \r\n 2  60  2 \r\n[abc]\r\n'),
+    ('failed-read:out-of-data-then-restore-in-handler',
+     ['10 ON ERROR GOTO 100', '20 DATA 1,2', '30 READ A,B', '35 READ C', '40 PRINT A;B;C:END', '100 PRINT ERR;ERL:RESTORE:RESUME'],
+     b' 4  35 \r\n 1  2  1 \r\n'),
     ('read-in-subroutine-and-loop', ['10 FOR I%=1 TO 3:GOSUB 100:NEXT:END', '20 DATA 1,2', '100 READ A:PRINT A;:RETURN', '110 DATA 3'],
      b' 1  2  3 '),
 ]
